@@ -38,7 +38,11 @@ def run(tier):
             r10.maywrite(chk, 'C14.D2', prog, eff, 'sp_' + p + 'gemm', {'c': ['[]']}, cfgname)
             r10.maywrite(chk, 'C14.D2', prog, eff, p + 'gstrs', dict(ro, B=['->Store->nzval']), cfgname)
             c01.gstrs_oracle(chk, prog, eff, p, cfgname)
-        kernels.run_basic(chk, 'C14.kern', prog, cfgname, ('trsv', 'gemv', 'solve'), floor_scratch=8, floor_cursor=18)
+        kernels.run_basic(chk, 'C14.kern', prog, cfgname, ('trsv', 'gemv', 'solve'), floor_scratch=8, floor_cursor=10)
+        chk.clause('C14.kern.sweep', 'sp_?trsv solves every supernode; sp_?gemv assigns zero for beta = 0')
+        for p in _drv.PRECS:
+            kernels.supernode_sweep_rule(chk, 'C14.kern.sweep', prog, p, cfgname)
+            kernels.beta_zero_rule(chk, 'C14.kern.sweep', prog, p, cfgname)
         chk.clause('C14.kern.unrolled', 'column pointers of the bundled unrolled kernels start where the block layout puts them')
         nu = sum(kernels.unrolled_kernel_rule(chk, 'C14.kern.unrolled', prog, p, cfgname) for p in _drv.PRECS)
         if nu < 80:
